@@ -931,4 +931,230 @@ theorem challenge_authz_binding_partial {rq : Req} {w w' : World} {c : Ctx} {ch 
   refine ⟨h.2.2.symm, ?_, a, x, ha, hx, hown⟩
   rw [← h.2.1, hid]
 
+/-! ## `validateJWS` step by step: each nonce once under every interleaving of k requests -/
+
+def vThree (w : World) (t : VThread) : World × VThread :=
+  let (w1, t1) := vStep w t
+  let (w2, t2) := vStep w1 t1
+  vStep w2 t2
+
+/-- the three steps back to back are `validateJWS` -/
+theorem vsteps_refine (rq : Req) (w : World) :
+    (vThree w ⟨rq, .pre⟩).1 = (validateJWS rq w (ctxValidated rq)).1 ∧
+    ((vThree w ⟨rq, .pre⟩).2.pc = .passed ↔ ∃ c, (validateJWS rq w (ctxValidated rq)).2 = .ok c) := by
+  simp only [vThree, vStep, vPre, validateJWS, ctxValidated]
+  by_cases h0 : rq.jws.nsigs = 0
+  · simp [h0]
+  by_cases h1 : rq.jws.nsigs > 1
+  · simp [h0, h1]
+  by_cases h2 : rq.jws.unprotEmpty = true
+  · simp only [h0, h1, h2, if_false, Bool.not_true, Bool.false_eq_true]
+    cases ha : algCheck rq.jws with
+    | error e => simp
+    | ok u =>
+      cases u
+      simp only [vStep]
+      cases hc : consumeNonce w rq.jws.nonce with
+      | mk w1 found =>
+        cases found with
+        | false => simp
+        | true =>
+          simp only [vStep, vPost]
+          cases hu : rq.jws.url with
+          | none => simp
+          | some u =>
+            simp only []
+            repeat' split
+            all_goals simp
+  · simp [h0, h1, h2]
+
+def cnt (f : VThread → Bool) : List VThread → Nat
+  | [] => 0
+  | t :: ts => (if f t then 1 else 0) + cnt f ts
+
+theorem cnt_setNth (f : VThread → Bool) (ts : List VThread) (i : Nat) (t t' : VThread)
+    (h : ts[i]? = some t) :
+    cnt f (setNth ts i t') + (if f t then 1 else 0) = cnt f ts + (if f t' then 1 else 0) := by
+  induction ts generalizing i with
+  | nil => simp at h
+  | cons x xs ih =>
+    cases i with
+    | zero => simp at h; subst h; simp only [setNth, cnt]; omega
+    | succ i =>
+      simp at h
+      have := ih i h
+      simp only [setNth, cnt]; omega
+
+theorem cnt_mono (f g : VThread → Bool) (hfg : ∀ t, f t = true → g t = true) (ts : List VThread) :
+    cnt f ts ≤ cnt g ts := by
+  induction ts with
+  | nil => simp [cnt]
+  | cons x xs ih =>
+    simp only [cnt]
+    by_cases hf : f x = true
+    · simp [hf, hfg x hf]; exact ih
+    · simp [hf]; split <;> omega
+
+/-- the request carries nonce `n` and holds the fruit of a successful `DeleteNonce` -/
+def holds (n : Nat) (t : VThread) : Bool := t.rq.jws.nonce == n && (t.pc == .post || t.pc == .passed)
+/-- … and got through `validateJWS` -/
+def passedWith (n : Nat) (t : VThread) : Bool := t.rq.jws.nonce == n && t.pc == .passed
+
+theorem vPre_cases (j : Jws) : vPre j = .del ∨ ∃ r, vPre j = .refused r := by
+  unfold vPre
+  repeat' split
+  all_goals first | exact .inl rfl | exact .inr ⟨_, rfl⟩
+
+theorem vPost_cases (rq : Req) (j : Jws) : vPost rq j = .passed ∨ ∃ r, vPost rq j = .refused r := by
+  unfold vPost
+  repeat' split
+  all_goals first | exact .inl rfl | exact .inr ⟨_, rfl⟩
+
+theorem vStep_inv (n : Nat) (w : World) (t : VThread) :
+    (if holds n (vStep w t).2 then 1 else 0) + (if (vStep w t).1.nonces.contains n then 1 else 0)
+      ≤ (if holds n t then 1 else 0) + (if w.nonces.contains n then 1 else 0) := by
+  cases hp : t.pc with
+  | pre =>
+    have hw : (vStep w t).1 = w := by simp [vStep, hp]
+    have hh : holds n (vStep w t).2 = false := by
+      simp only [vStep, hp, holds]
+      rcases vPre_cases t.rq.jws with h | ⟨r, h⟩ <;> simp [h]
+    rw [hw, hh]; simp
+  | del =>
+    simp only [vStep, hp]
+    unfold consumeNonce
+    by_cases hc : w.nonces.contains t.rq.jws.nonce = true
+    · simp only [hc, if_true]
+      by_cases hn : t.rq.jws.nonce = n
+      · subst hn
+        have h0 : holds t.rq.jws.nonce t = false := by simp [holds, hp]
+        have h1 : holds t.rq.jws.nonce { t with pc := VPc.post } = true := by simp [holds]
+        have h2 : (List.filter (fun x => x != t.rq.jws.nonce) w.nonces).contains t.rq.jws.nonce = false := by
+          simp
+        simp only [h0, h1, h2, hc]; simp
+      · have h1 : holds n { t with pc := VPc.post } = false := by simp [holds, hn]
+        have h2 : (List.filter (fun x => x != t.rq.jws.nonce) w.nonces).contains n = w.nonces.contains n := by
+          simp only [List.contains_eq_mem, List.mem_filter]
+          have : (n != t.rq.jws.nonce) = true := by simpa using fun h => hn h.symm
+          simp [this]
+        simp only [h1, h2]; simp
+    · have h1 : holds n { t with pc := VPc.refused Rej.badNonce } = false := by simp [holds]
+      have hc' : w.nonces.contains t.rq.jws.nonce = false := by simpa using hc
+      simp only [hc', Bool.false_eq_true, if_false]
+      rw [h1]; simp
+  | post =>
+    have hw : (vStep w t).1 = w := by simp [vStep, hp]
+    have hh : holds n (vStep w t).2 = true → holds n t = true := by
+      simp only [vStep, hp, holds]
+      rcases vPost_cases t.rq t.rq.jws with h | ⟨r, h⟩ <;> simp [h]
+    rw [hw]
+    by_cases h1 : holds n (vStep w t).2 = true
+    · simp [h1, hh h1]
+    · simp [h1]
+  | passed => simp [vStep, hp]
+  | refused r => simp [vStep, hp]
+
+/-- **nonce_once_steps.** k requests, each taking its `validateJWS` in three steps (local tests,
+    the atomic `DeleteNonce`, local tests), interleaved in any way with each other and with the
+    minting of other nonces: at most one request carrying nonce `n` gets through. -/
+theorem nonce_once_steps (n : Nat) (ops : List VOp) (w : World) (ts : List VThread)
+    (hfresh : ∀ m, VOp.issue m ∈ ops → m ≠ n) :
+    cnt (holds n) (vRun w ts ops).2 + (if (vRun w ts ops).1.nonces.contains n then 1 else 0)
+      ≤ cnt (holds n) ts + (if w.nonces.contains n then 1 else 0) := by
+  induction ops generalizing w ts with
+  | nil => simp [vRun]
+  | cons op ops ih =>
+    have hf' : ∀ m, VOp.issue m ∈ ops → m ≠ n := fun m hm => hfresh m (List.mem_cons_of_mem _ hm)
+    cases op with
+    | issue m =>
+      have hm : m ≠ n := hfresh m List.mem_cons_self
+      simp only [vRun]
+      refine Nat.le_trans (ih _ ts hf') ?_
+      have : (issueNonce w m).nonces.contains n = w.nonces.contains n := by
+        simp [issueNonce, List.contains_cons]
+        intro h; exact absurd h.symm hm
+      rw [this]; exact Nat.le_refl _
+    | move i =>
+      cases hi : ts[i]? with
+      | none => simp only [vRun, hi]; exact ih w ts hf'
+      | some t =>
+        simp only [vRun, hi]
+        refine Nat.le_trans (ih _ _ hf') ?_
+        have h1 := cnt_setNth (holds n) ts i t (vStep w t).2 hi
+        have h2 := vStep_inv n w t
+        omega
+
+/-- corollary in the form of the property: all requests at the start of `validateJWS`, the nonce
+    in the table or not — at the end at most one request carrying `n` has passed -/
+theorem nonce_once_interleaved (n : Nat) (ops : List VOp) (w : World) (rqs : List Req)
+    (hfresh : ∀ m, VOp.issue m ∈ ops → m ≠ n) :
+    cnt (passedWith n) (vRun w (rqs.map (⟨·, .pre⟩)) ops).2 ≤ 1 := by
+  have h := nonce_once_steps n ops w (rqs.map (⟨·, .pre⟩)) hfresh
+  have h0 : ∀ l : List Req, cnt (holds n) (l.map (⟨·, .pre⟩)) = 0 := by
+    intro l
+    induction l with
+    | nil => rfl
+    | cons r rs ih => simp [cnt, holds, ih]
+  have hm := cnt_mono (passedWith n) (holds n) (by
+    intro t ht; simp [passedWith, holds] at ht ⊢; exact ⟨ht.1, .inr ht.2⟩)
+    (vRun w (rqs.map (⟨·, .pre⟩)) ops).2
+  rw [h0 rqs] at h
+  have : (if w.nonces.contains n then 1 else 0) ≤ 1 := by split <;> omega
+  omega
+
+-- two well-formed requests with one nonce, fully interleaved: one passes, the other is refused at `del`
+example : cnt (passedWith 7) (vRun exWorld [⟨exReq, .pre⟩, ⟨{ exReq with target := 51 }, .pre⟩]
+    [.move 0, .move 1, .move 1, .move 0, .issue 9, .move 0, .move 1]).2 = 1 := by decide
+
+/-! ## overlapping account updates: a deactivation can be undone (reproduced by stage `acctrace`) -/
+
+def reqDeact : UpdThread := ⟨.deactivate, .start⟩
+def reqContact : UpdThread := ⟨.contact, .start⟩
+
+/-- the clause under concurrency: whatever the interleaving of a deactivation and a contact update
+    of one account, once the deactivation has been served the stored account is not valid -/
+def DeactivationSticks : Prop :=
+  ∀ sched : List Bool,
+    (updRun .valid reqDeact reqContact sched).2.1.pc = .done true →
+      (updRun .valid reqDeact reqContact sched).1 ≠ .valid
+
+/-- **deactivation_sticks_refuted.** False as coded: load_A load_B update_A update_B — the contact
+    update writes back the `valid` it loaded before the deactivation was stored. -/
+theorem deactivation_sticks_refuted : ¬ DeactivationSticks := by
+  intro h
+  have := h [false, true, false, true]
+  revert this
+  decide
+
+/-- **account_update_interleavings** (table, `decide`): of the 6 interleavings of the two
+    two-step requests exactly ABAB and BAAB end with a valid account after a served deactivation. -/
+theorem account_update_interleavings :
+    [[false, false, true, true], [false, true, false, true], [false, true, true, false],
+     [true, false, false, true], [true, false, true, false], [true, true, false, false]].map
+      (fun s => (updRun .valid reqDeact reqContact s).1)
+    = [.deactivated, .valid, .deactivated, .valid, .deactivated, .deactivated] := by decide
+
+theorem updRun_after_deact (b : UpdThread) (hb : b.pc = .start ∨ b.pc = .done false) (k : UpdKind) (sched : List Bool) :
+    (updRun .deactivated ⟨k, .done true⟩ b sched).1 = .deactivated := by
+  induction sched generalizing b with
+  | nil => rfl
+  | cons x xs ih =>
+    cases x with
+    | false => simp only [updRun, updStep]; exact ih b hb
+    | true =>
+      simp only [updRun]
+      rcases hb with hb | hb
+      · have : updStep .deactivated b = (.deactivated, { b with pc := .done false }) := by
+          simp [updStep, hb]
+        rw [this]; exact ih _ (.inr rfl)
+      · have : updStep .deactivated b = (.deactivated, b) := by simp [updStep, hb]
+        rw [this]; exact ih _ (.inr hb)
+
+/-- **deactivation_sticks_partial.** If the deactivation has taken both its steps before the other
+    request starts, the account stays deactivated whatever follows. -/
+theorem deactivation_sticks_partial (rest : List Bool) :
+    (updRun .valid reqDeact reqContact (false :: false :: rest)).1 = .deactivated := by
+  simp only [updRun, updStep, reqDeact, reqContact]
+  exact updRun_after_deact _ (.inl rfl) _ rest
+
 end Verif.AcmeAuth
